@@ -63,7 +63,7 @@ def scenarios(thorough):
 def run(chk, replay=None):
     scns = scenarios(chk.thorough)
     chan_model.model_check(chk, "C04", scns)
-    n_pct, dfs = (1500, 4000) if chk.thorough else (150, 700)
+    n_pct, dfs = (700, 2400) if chk.thorough else (150, 700)
     cc.explore_and_validate(chk, "C04", scns, n_pct, dfs, bound=2, label="pipelining")
     chk.rule = ("cases = schedules of the real server (I/O loop + workers + client, pre-emption at every lock/socket/trigger operation and every access to a shared channel attribute) "
                 "over %d pipelining scenarios; DFS with pre-emption bound 2 + PCT priority walks; evaluations = distinct recorded traces judged by TLC; "
